@@ -320,11 +320,17 @@ package parse
 //@   pure
 //@   ensures[S] true
 //@ extern bytes.Equal
+//@   pure
 //@   ensures[S] result ==> len(a) == len(b)
 
 // ---- whitespace / entity normalisation (C17): memory safety, in-place, never longer
 //@ func ReplaceMultipleWhitespace
 //@   ensures[S]  len(result) <= len(b) && (within(result, b) || len(result) == 0)
+// every run of white space is rewritten to a single space, or to a newline if it contained a line break: after an iteration
+// that started on a white-space byte, that byte holds ' ' or '\n' (whatever the run's length; compaction never writes there)
+//@   loop 1 transition[F,C17] @run-normalised: isWS(prev(b[i])) ==> b[prev(i)] == ' ' || b[prev(i)] == '\n'
+//@   loop 2 invariant[F] @newline-kept: (b[start] == '\n' || b[start] == '\r') ==> newline
+//@   loop 1 transition[F,C17] @run-newline: isWS(prev(b[i])) && (prev(b[i]) == '\n' || prev(b[i]) == '\r') ==> b[prev(i)] == '\n'
 //@   loop * candidate 0 <= i && i <= len(b)
 //@   loop * candidate 0 <= j && j <= k && k <= i
 //@   loop * candidate 0 <= i && i <= len(b) + 1
@@ -338,6 +344,10 @@ package parse
 //@   loop 2 decreases len(b) - i
 
 //@ extern strconv.AppendInt
+//@   modifies M.uint8
+//@   ensures[S] @frame: sameBytesExcept(ptr(dst), ptr(dst) + cap(dst))
+//@   ensures[S] @result-mem: (ptr(result) == ptr(dst) && cap(result) == cap(dst)) || fresh(result)
+//@   ensures[S] @prefix: forall(k, 0, len(dst), result[k] == old(dst[k]))
 //@   ensures[S] len(result) >= len(dst) + 1 && len(result) <= len(dst) + 20
 //@   ensures[S] base == 10 && 0 <= i && i < 10 ==> len(result) == len(dst) + 1
 //@   ensures[S] base == 10 && 10 <= i && i < 100 ==> len(result) == len(dst) + 2
@@ -348,10 +358,15 @@ package parse
 // a replacement is never longer than the reference it replaces.
 //@ pred isRefChar(c) := ('0' <= c && c <= '9') || ('a' <= c && c <= 'z') || ('A' <= c && c <= 'Z') || c == '#'
 //@ func replaceEntities
+// a numeric reference is written as a literal byte only if that byte is ASCII (otherwise it would not be UTF-8 and would
+// decode differently); what replaces it therefore starts with an ASCII byte. The reverse map holds references ('&...').
+//@   ensures[F,C17,perpath] @numeric-ascii: old(b[i+1]) == '#' && len(result0) < len(b) ==> result0[i] < 128
 // a reference is not decoded to a bare '&' in front of something that would then read as a reference itself
-//@   ensures[F,C17] @amp-guard: len(result0) < len(b) && result1 == i && result0[i] == '&' && i + 1 < len(result0) ==> !isRefChar(result0[i+1])
+//@   ensures[F,C17,perpath] @amp-guard: len(result0) < len(b) && result1 == i && result0[i] == '&' && i + 1 < len(result0) ==> !isRefChar(result0[i+1])
+// a reference is rewritten in place: nothing in front of the '&' changes
+//@   ensures[F,C17,perpath] @prefix-kept: forall(x, 0, i, result0[x] == old(b[x]))
 //@   mapspec entitiesMap: ok ==> len(value) <= len(key) + 2
-//@   mapspec revEntitiesMap: ok ==> len(value) <= n && len(value) >= 2
+//@   mapspec revEntitiesMap: ok ==> len(value) <= n && len(value) >= 2 && value[0] == '&'
 //@   requires[S] 0 <= i && i+3 < len(b) && b[i] == '&'
 //@   ensures[S]  len(result0) <= len(b) && ptr(result0) == ptr(b) && cap(result0) == cap(b)
 //@   ensures[S]  i - 1 <= result1 && result1 < len(result0)
@@ -374,10 +389,13 @@ package parse
 //@   loop 1 decreases 2*len(b) - i
 
 //@ func ReplaceMultipleWhitespaceAndEntities
-//@   noverify
 //@   mapspec entitiesMap: ok ==> len(value) <= len(key) + 2
 //@   mapspec revEntitiesMap: ok ==> len(value) <= n && len(value) >= 2
 //@   ensures[S,C17] @never-longer: len(result) <= len(b)
+// as in ReplaceMultipleWhitespace: the first byte of every white-space run holds ' ' or '\n' after the iteration that met it
+//@   loop 1 transition[F,C17] @run-normalised: isWS(prev(b[i])) ==> b[prev(i)] == ' ' || b[prev(i)] == '\n'
+//@   loop 1 invariant 0 <= j && j <= k && k <= i && i <= len(b) + 1 && k <= len(b) && len(b) <= len(old(b)) && ptr(b) == ptr(old(b)) && cap(b) == cap(old(b)) && ((j == 0) == (k == 0)) && (j != 1 || 2 <= k)
+//@   loop 2 invariant 0 <= j && j <= k && k <= start && start < i && i <= len(b) && len(b) <= len(old(b)) && ptr(b) == ptr(old(b)) && cap(b) == cap(old(b)) && ((j == 0) == (k == 0)) && (j != 1 || 2 <= k)
 //@   loop * candidate 0 <= j && j <= k && k <= i
 //@   loop * candidate -1 <= i && i <= len(b) + 1
 //@   loop * candidate 0 <= i && i <= len(b) + 1
@@ -413,7 +431,7 @@ package parse
 //@   ensures[S]  arg0 != nil && len(arg0) >= arg1 && result0 != nil ==> sameMem(result0, arg0[0:len(result0)])
 //@   ensures[F]  @length: arg1 > 0 && result1 == nil ==> len(result0) == arg1 && arg2 + arg1 <= clen(recv)
 //@   ensures[F]  @content: forall(i, 0, len(result0), result0[i] == content(recv, arg2 + i))
-//@   ensures[F]  @frame: ite(arg0 == nil, sameBytes(), sameBytesExcept(ptr(arg0), ptr(arg0) + len(arg0)))
+//@   ensures[F]  @frame: ite(arg0 == nil, sameBytesExcept(0, 0), sameBytesExcept(ptr(arg0), ptr(arg0) + len(arg0)))
 
 // the in-memory back end defines the abstract view as its data slice
 //@ pred bytesView(r) := clen(r) == len(r.data) && forall(i, 0, len(r.data), content(r, i) == r.data[i])
@@ -614,47 +632,84 @@ package parse
 // (they hold for every reader by construction) and are therefore assumed at call sites and not imposed on implementations.
 //@ ghost stream(r, i) byte
 //@ ghostfield delivered
+// slen(r): the total number of bytes reader r will ever deliver (ghost); what has been delivered lies within it
+//@ ghost slen(r)
 //@ iface io.Reader.Read
 //@   modifies M.uint8, G.delivered
 //@   ensures[S] 0 <= result0 && result0 <= len(arg0)
 //@   ensures[F] @frame: sameBytesExcept(ptr(arg0), ptr(arg0) + len(arg0))
 //@   ensures[F,ghost] @count: delivered(recv) == old(delivered(recv)) + result0 && old(delivered(recv)) >= 0
 //@   ensures[F,ghost] @data: forall(k, 0, result0, arg0[k] == stream(recv, old(delivered(recv)) + k))
+//@   ensures[F,ghost] @within: delivered(recv) <= slen(recv)
+// ralen(r), radata(r, i): the data behind an io.ReaderAt (ghost). The documented contract of ReadAt: it reads into p only,
+// the bytes it reports are the data at off.., they exist, and fewer than len(p) bytes come with an error.
+//@ ghost ralen(r)
+//@ ghost radata(r, i) byte
 //@ iface io.ReaderAt.ReadAt
 //@   modifies M.uint8
 //@   ensures[S] 0 <= result0 && result0 <= len(arg0)
+//@   ensures[F,ghost] @frame: sameBytesExcept(ptr(arg0), ptr(arg0) + len(arg0))
+//@   ensures[F,ghost] @data: forall(k, 0, result0, arg0[k] == radata(recv, arg1 + k))
+//@   ensures[F,ghost] @within: result0 > 0 ==> arg1 >= 0 && arg1 + result0 <= ralen(recv)
+//@   ensures[F,ghost] @full: result1 == nil ==> result0 == len(arg0)
 //@ iface io.Seeker.Seek
 //@   modifies nothing
 //@   ensures[S] true
+// Ghost model of a seekable stream: sdata(r, i) the data, sdlen(r) their length, spos(r) the current offset. Seek from
+// the start (whence 0) that succeeds moves the offset there; Read delivers the bytes at the offset and advances it.
+//@ ghost sdlen(r)
+//@ ghost sdata(r, i) byte
+//@ ghostfield spos
 //@ iface io.ReadSeeker.Read
-//@   modifies M.uint8
+//@   modifies M.uint8, G.spos
 //@   ensures[S] 0 <= result0 && result0 <= len(arg0)
+//@   ensures[F,ghost] @frame: sameBytesExcept(ptr(arg0), ptr(arg0) + len(arg0))
+//@   ensures[F,ghost] @count: spos(recv) == old(spos(recv)) + result0
+//@   ensures[F,ghost] @data: forall(k, 0, result0, arg0[k] == sdata(recv, old(spos(recv)) + k))
+//@   ensures[F,ghost] @within: result0 > 0 ==> old(spos(recv)) >= 0 && spos(recv) <= sdlen(recv)
 //@ iface io.ReadSeeker.Seek
-//@   modifies nothing
+//@   modifies G.spos
 //@   ensures[S] true
+//@   ensures[F,ghost] @set: result1 == nil && arg1 == 0 ==> spos(recv) == arg0
 
+// the io.Reader back end: reads sequentially, so its abstract view is the reader's whole stream, its position the number
+// of bytes the reader has delivered; the length its client stated at construction is assumed to be the stream's length
+//@ pred rrView(r) := clen(r) == r.size && r.size == slen(r.r) && r.pos == delivered(r.r) && r.pos >= 0 && forall(i, 0, r.size, content(r, i) == stream(r.r, i))
 //@ func binaryReaderReader.Bytes
-//@   assumefacet F
-//@   requires[S] r != nil && r.r != nil && (b == nil || len(b) >= n) && n <= (1<<50)
+//@   requires[S] r != nil && r.r != nil && (b == nil || len(b) == n) && n <= (1<<50)
+//@   requires[F] rrView(r)
+//@   ensures[F]  @view: rrView(r)
 //@   loop 1 invariant 0 <= i && i <= n && b != nil && len(b) == n
+//@   loop 1 invariant[F] r.pos == off + i && (i > 0 ==> r.pos <= r.size) && rrView(r) && forall(k, 0, i, b[k] == stream(r.r, off + k)) && (sameSlice(b, old(b)) || old(b) == nil)
+//@   loop 1 invariant[F] ite(old(b) == nil, sameBytesExcept(0, 0), sameBytesExcept(ptr(old(b)), ptr(old(b)) + len(old(b))))
+//@   loop 1 decreases n - i
+// the io.ReadSeeker back end seeks to the offset and reads sequentially from there
+//@ pred rsView(r) := clen(r) == r.size && r.size == sdlen(r.r) && forall(i, 0, r.size, content(r, i) == sdata(r.r, i))
 //@ func binaryReaderSeeker.Bytes
-//@   assumefacet F
-//@   requires[S] r != nil && r.r != nil && (b == nil || len(b) >= n) && n <= (1<<50)
+//@   requires[S] r != nil && r.r != nil && (b == nil || len(b) == n) && n <= (1<<50)
+//@   requires[F] rsView(r)
+//@   ensures[F]  @view: rsView(r)
 //@   loop 1 invariant 0 <= i && i <= n && b != nil && len(b) == n
+//@   loop 1 invariant[F] spos(r.r) == off + i && (i > 0 ==> off >= 0 && off + i <= r.size) && rsView(r) && forall(k, 0, i, b[k] == sdata(r.r, off + k)) && (sameSlice(b, old(b)) || old(b) == nil)
+//@   loop 1 invariant[F] ite(old(b) == nil, sameBytesExcept(0, 0), sameBytesExcept(ptr(old(b)), ptr(old(b)) + len(old(b))))
+//@   loop 1 decreases n - i
+// the io.ReaderAt back end: its abstract view is the data behind the reader; the length its client stated at construction
+// is assumed to be the length of that data
+//@ pred raView(r) := clen(r) == r.size && r.size == ralen(r.r) && forall(i, 0, r.size, content(r, i) == radata(r.r, i))
 //@ func binaryReaderReaderAt.Bytes
-//@   assumefacet F
-//@   requires[S] r != nil && r.r != nil && (b == nil || len(b) >= n) && n <= (1<<50)
+//@   requires[S] r != nil && r.r != nil && (b == nil || len(b) == n) && n <= (1<<50)
+//@   requires[F] raView(r)
 
 // the stream back ends are constructed with the length their client states; it is assumed non-negative and small
 //@ func binaryReaderReader.Len
-//@   assumefacet F
 //@   requires[S] r != nil && r.size >= 0 && smallInt(r.size)
+//@   requires[F] rrView(r)
 //@ func binaryReaderSeeker.Len
-//@   assumefacet F
 //@   requires[S] r != nil && r.size >= 0 && smallInt(r.size)
+//@   requires[F] rsView(r)
 //@ func binaryReaderReaderAt.Len
-//@   assumefacet F
 //@   requires[S] r != nil && r.size >= 0 && smallInt(r.size)
+//@   requires[F] raView(r)
 //@ iface io.Writer.Write
 //@   readonly arg0
 //@   ensures[S] true
